@@ -539,3 +539,89 @@ func runC19Case(c cfg, seed uint64, stopKind string, addFaults bool, keys map[st
 	res.Obs("c19_register_hangs", x.hung.Load())
 	return x.evals.Load()
 }
+
+// runBootStopCase: Stop is issued before the engine has started - inside OnBoot with a context that has already ended,
+// or from a goroutine that got the handle in OnBoot while OnBoot is still running. The shutdown is not cancelled by the
+// context's end: the engine comes up and goes down again in full (OnShutdown once, Run returns nil, the handle reports
+// in-shutdown afterwards).
+func runBootStopCase(c cfg, variant string, keys map[string]struct{}) int64 {
+	var eng gnet.Engine
+	var inBoot, stopErr atomic.Value
+	asyncDone := make(chan struct{})
+	mon := newMonitor("bootstop", hooks{
+		onBoot: func(e gnet.Engine) gnet.Action {
+			eng = e
+			switch variant {
+			case "expired-inside-OnBoot":
+				ctx, cancel := context.WithCancel(context.Background())
+				cancel()
+				stopErr.Store(fmt.Sprint(e.Stop(ctx)))
+				close(asyncDone)
+			case "live-from-goroutine-during-OnBoot":
+				go func() {
+					defer close(asyncDone)
+					ctx, cancel := context.WithTimeout(context.Background(), 8*time.Second)
+					defer cancel()
+					stopErr.Store(fmt.Sprint(e.Stop(ctx)))
+				}()
+				time.Sleep(20 * time.Millisecond) // OnBoot is still running while Stop is called
+			}
+			inBoot.Store(true)
+			return gnet.None
+		},
+	})
+	vsys.ResetAlarms()
+	vsys.ResetLedger()
+	vsys.PlanClear()
+	done := make(chan error, 1)
+	go func() { done <- gnet.Run(mon, c.listenAddr(), c.options()...) }()
+	select {
+	case err := <-done:
+		mon.noteRunReturned(vsys.Seq())
+		if err != nil {
+			res.Violate("C19 Run returned an error after Stop during OnBoot variant="+variant, fmt.Sprint(err), nil)
+		}
+	case <-time.After(12 * time.Second):
+		stuck, desc := loopsStuck()
+		if stuck {
+			res.Violate("C19 Run does not return after Stop during OnBoot variant="+variant, "Stop was called before the start had completed; 12s later Run has not returned and "+desc, map[string]any{"config": c.String()})
+		} else {
+			res.Inconc("c19 boot-stop %s: Run not returned after 12s (%s)", variant, desc)
+		}
+		return 1
+	}
+	select {
+	case <-asyncDone:
+	case <-time.After(10 * time.Second):
+		res.Violate("C19 Stop issued during OnBoot never returned variant="+variant, "Run has returned; the Stop call is still waiting", nil)
+		return 1
+	}
+	if n := mon.shutdowns.Load(); n != 1 {
+		res.Violate("C19 OnShutdown not invoked exactly once after Stop during OnBoot variant="+variant, fmt.Sprintf("Run returned; OnShutdown ran %d times (Stop returned %v)", n, stopErr.Load()), map[string]any{"config": c.String()})
+	}
+	if err := eng.Validate(); !errors.Is(err, errorx.ErrEngineInShutdown) {
+		res.Violate("C19 handle not in shutdown after Run returned variant="+variant, fmt.Sprintf("Validate() = %v, CountConnections() = %d", err, eng.CountConnections()), nil)
+	}
+	if n := eng.CountConnections(); n != -1 {
+		res.Violate("C19 CountConnections after shutdown variant="+variant, fmt.Sprint(n), nil)
+	}
+	ctx, cancel := context.WithTimeout(context.Background(), time.Second)
+	if err := eng.Stop(ctx); !errors.Is(err, errorx.ErrEngineInShutdown) {
+		res.Violate("C19 second Stop after Stop during OnBoot variant="+variant, fmt.Sprintf("Stop() = %v, want the in-shutdown error", err), nil)
+	}
+	cancel()
+	if variant == "live-from-goroutine-during-OnBoot" {
+		if v, _ := stopErr.Load().(string); v != "<nil>" {
+			res.Violate("C19 Stop with a live context during OnBoot did not return nil variant="+variant, v, nil)
+		}
+	}
+	for _, fi := range vsys.Owned() {
+		if fi.Class == "adopted" || fdIdent(fi.FD) == "" {
+			continue
+		}
+		res.Violate(fmt.Sprintf("C07 leak class=%s site=%s history=stop-during-OnBoot", fi.Class, fi.Site), fmt.Sprintf("descriptor %d still open after Run returned", fi.FD), nil)
+		_ = unix.Close(fi.FD)
+	}
+	keys["stop-during-OnBoot|"+variant] = struct{}{}
+	return 1
+}
